@@ -95,7 +95,10 @@ def _socket_sendall(ip, s, args, kw):
     if not ip.is_byteslike(data):
         raise PyRaise(ExcVal(TypeError, tag='sendall-nonbytes'))
     b = ip.bytes_of(data)
-    st.ghost.setdefault('io_log', []).append(('sendall', s.key, st.ghost.get(('lock_of', s.key)) and lock_held(st, st.ghost[('lock_of', s.key)])))
+    st.ghost.setdefault('io_log', []).append(('sendall', s.key, _sock_locked(st, s), b))
+    hook = st.ghost.get('sendall_hook')
+    if hook is not None:
+        hook(ip, s, b)
     may_raise(ip, 'sendall')
     st.ghost['wire'] = wire(st).append(SBytes(BYTES, b.n, b.at, b.arr, meta=b.meta))
     st.ghost.setdefault('wire_log', []).append(b)
